@@ -2,6 +2,7 @@
 import re
 import absint
 from engines import kind_elements, is_tracing
+from engines import check_required_steps
 from engines import check_complete_iteration
 from prov import Prov, params_of, field_names
 
@@ -187,6 +188,11 @@ def run(ck, prog, ctx):
     ck.floor("ROLE", "inner enrichment functions", n_inner, 2)
 
     check_complete_iteration(ck, "ROLE", prog, INNER + ["stats::calculate_counts"] + [b.id for b in prog.find(r"^stats::SampleSet::<.*>::(gene|omim_disease|orpha_disease)$")], "the sample / the annotations of a term")
+
+    for fid in INNER:
+        b_ = prog.body(fid)
+        if b_ is not None:
+            check_required_steps(ck, "ROLE", prog, b_, [("one record per annotation of the sample", lambda t: bool(re.search(r"stats::Enrichment::<.*>::(gene|disease|annotation)$", t.callee.res or "")))])
 
     # ------------------------------------------------------------------ wrappers
     for fid, ctor in sorted(WRAPPERS.items()):
